@@ -38,6 +38,7 @@ def run(cmd, **kw):
     kw.setdefault("stdout", subprocess.PIPE)
     kw.setdefault("stderr", subprocess.STDOUT)
     kw.setdefault("text", True)
+    kw.setdefault("errors", "replace")   # string keys may carry bytes >= 0x80 into messages
     return subprocess.run(cmd, **kw)
 
 
@@ -262,7 +263,7 @@ def run_seq_batch(bindir, scratch, name, histories, variant=None, oracle=True):
                 f.write("\n".join(histories[hi]) + "\n")
         cmd = [os.path.join(bindir, "seqrun"), "-oracle", oraf] if oracle else [os.path.join(bindir, "seqrun"), "-no-oracle"]
         with open(opsf) as fin:
-            r = subprocess.run(cmd, stdin=fin, stdout=subprocess.PIPE, stderr=subprocess.PIPE, text=True)
+            r = subprocess.run(cmd, stdin=fin, stdout=subprocess.PIPE, stderr=subprocess.PIPE, text=True, errors="replace")
         outl = r.stdout.splitlines()
         recs = []
         if oracle and os.path.exists(oraf):
@@ -303,7 +304,7 @@ def run_seq_batch(bindir, scratch, name, histories, variant=None, oracle=True):
                 f.write("variant %s\n" % variant)
             f.write("\n".join(h) + "\n")
     with open(opsf) as fin:
-        r = subprocess.run([MODEL], stdin=fin, stdout=subprocess.PIPE, stderr=subprocess.PIPE, text=True)
+        r = subprocess.run([MODEL], stdin=fin, stdout=subprocess.PIPE, stderr=subprocess.PIPE, text=True, errors="replace")
     mol = r.stdout.splitlines()
     pos = 0
     for hi, h in enumerate(histories):
